@@ -1024,6 +1024,62 @@ def nd_getitem(ev, x: NdArr, idx, fr, node):
     return NdArr(out_shape, out_items)
 
 
+def nd_setitem(ev, x: NdArr, idx, v, fr, node):
+    """Basic-index store into an explicit array (ints and slices; scalar or same-shape value)."""
+    import itertools
+    items = _norm_index(ev, idx)
+    if len(items) > x.ndim:
+        from .symeval import Raised
+        raise Raised("IndexError", node, "too many indices")
+    sel = []
+    for ax in range(x.ndim):
+        n = x.shape[ax]
+        if ax < len(items):
+            it = items[ax]
+            if isinstance(it, SliceV):
+                g = lambda q: None if isinstance(q, NoneV) else ev.concrete_int(q)  # noqa: E731
+                for q in (it.start, it.stop, it.step):
+                    if not isinstance(q, NoneV) and ev.concrete_int(q) is None:
+                        ev.unsupported("symbolic slice store into an explicit array", node, fr)
+                sel.append(list(range(*slice(g(it.start), g(it.stop), g(it.step)).indices(n))))
+            else:
+                k = ev.concrete_int(it)
+                if k is None:
+                    ev.unsupported("symbolic index store into an explicit array", node, fr)
+                if k < 0:
+                    k += n
+                if not 0 <= k < n:
+                    from .symeval import Raised
+                    raise Raised("IndexError", node, "index out of bounds")
+                sel.append([k])
+        else:
+            sel.append(list(range(n)))
+    strides, acc = [], 1
+    for s_ in reversed(x.shape):
+        strides.insert(0, acc)
+        acc *= s_
+    ev.trace.append(("nd-store", x, idx, v, node))
+    for combo in itertools.product(*sel):
+        off = sum(c * st for c, st in zip(combo, strides))
+        x.items[off] = v if not isinstance(v, NdArr) else v.items[0]
+
+
+def h_moveaxis(ev, args, kwargs, fr, node):
+    x = args[0]
+    src, dst = ev.concrete_int(args[1]), ev.concrete_int(args[2])
+    if not isinstance(x, Num) or x.shape is None or src is None or dst is None:
+        ev.unsupported("np.moveaxis on an array of unknown rank", node, fr)
+    order = list(range(len(x.shape)))
+    a = order.pop(src % len(x.shape))
+    order.insert(dst % len(x.shape) if dst >= 0 else len(x.shape) + dst, a)
+    shape = [x.shape[i] for i in order]
+    return Num(F["Transpose"](x.expr, *order), kind=x.kind, shape=shape, backend=x.backend, tag=x.tag, dtype=x.dtype)
+
+
+def h_swapaxes(ev, args, kwargs, fr, node):
+    return num_method(ev, args[0], "swapaxes", args[1:], kwargs, fr, node)
+
+
 # ------------------------------------------------------------------------ external calls
 def _lazy(fn):
     """floor/ceiling: evaluate only on numbers (sympy's symbolic evaluation of big arguments is very slow)."""
@@ -1743,7 +1799,7 @@ EXT = {
     "numpy.array": h_array, "numpy.asarray": h_array, "numpy.asanyarray": h_array,
     "dask.array.asanyarray": lambda ev, a, k, fr, n: a[0].like(a[0].expr, backend="dask") if isinstance(a[0], Num) else a[0],
     "dask.array.asarray": lambda ev, a, k, fr, n: a[0].like(a[0].expr, backend="dask") if isinstance(a[0], Num) else a[0],
-    "numpy.stack": h_stack, "numpy.concatenate": h_concatenate, "numpy.take": h_take, "numpy.nditer": h_nditer, "numpy.broadcast_to": h_broadcast_to,
+    "numpy.stack": h_stack, "numpy.concatenate": h_concatenate, "numpy.moveaxis": h_moveaxis, "numpy.swapaxes": h_swapaxes, "numpy.take": h_take, "numpy.nditer": h_nditer, "numpy.broadcast_to": h_broadcast_to,
     "numpy.prod": h_prod, "math.prod": h_prod, "numpy.where": h_where, "numpy.bool_": h_bool_,
     "numpy.allclose": h_allclose, "numpy.isclose": h_allclose, "numpy.iscomplexobj": h_iscomplexobj,
     "numpy.fft.fftshift": _shift_like("FFTSHIFT"), "numpy.fft.ifftshift": _shift_like("IFFTSHIFT"),
